@@ -1,10 +1,446 @@
-//! C09 — not built yet.
-use crate::ev::Ctx;
-pub fn run(_ctx: &Ctx) -> i32 {
-    println!("INCONCLUSIVE property=C09 check not built yet");
-    2
+//! C09 — format detection is a transparent, total pre-selection step.
+//!
+//! (a) transparency: with F = the detect hook's answer, translate(None) must
+//! equal translate(Some(F)) in verdict, output bytes and error text; F = None
+//! must give exactly "unable to detect input format"; a detection error is a
+//! violation (the harness reader injects none here).
+//! (b) every input that translates successfully under detection is detected as
+//! the same format from a slice and from a reader under every schedule.
+//! (d) the rewindable input handle against a reference model, over ALL
+//! programs of borrows / partial reads / prefix requests up to a bound, all
+//! small data sizes and all chunkings of the source.
+
+use serde_json::{json, Value};
+use std::io::Read;
+
+use crate::corpus;
+use crate::ev::{self, Acc, Ctx, Finish, Violation};
+use crate::fmts::{self, Fmt, ALL};
+use crate::gen::GenOpts;
+use crate::known;
+use crate::model::{hex, preview, unhex};
+use crate::mon::{Sched, SchedReader};
+use crate::rng::Rng;
+use crate::run::{guarded_any, run_mode, Mode, Verdict};
+use xt::verif::{Handle, Obs, Op, Owned};
+
+pub const UNABLE: &str = "unable to detect input format";
+
+pub fn detect(input: &[u8], mode: &Mode) -> Result<Option<Fmt>, String> {
+    let r = match mode {
+        Mode::Slice => guarded_any(|| xt::verif::detect_slice(input)),
+        Mode::Reader(s) => guarded_any(|| xt::verif::detect_reader(SchedReader::new(input, s.clone()))),
+    };
+    r.map_err(|p| format!("panic: {p}"))?.map(|o| o.map(Fmt::from_xt)).map_err(|e| format!("io error: {e}"))
 }
-pub fn replay(_case: &serde_json::Value) -> i32 {
-    println!("replay not built yet");
-    2
+
+fn show(d: &Result<Option<Fmt>, String>) -> String {
+    match d {
+        Ok(Some(f)) => f.name().to_string(),
+        Ok(None) => "none".into(),
+        Err(e) => format!("error({e})"),
+    }
+}
+
+fn case_json(input: &[u8], mode: &Mode, to: Fmt, class: &str) -> Value {
+    json!({"part": "transparency", "input_hex": hex(input), "input_preview": preview(input, 200), "mode": mode.describe(), "to": to.name(), "class": class})
+}
+
+/// Returns (the format detection named, whether the detected translation succeeded).
+pub fn transparency(input: &[u8], mode: &Mode, to: Fmt, class: &str, acc: &mut Acc) -> (Option<Fmt>, bool) {
+    acc.evals += 1;
+    let d = detect(input, mode);
+    acc.count(&format!("detected_{}", show(&d).split('(').next().unwrap()));
+    let auto = run_mode(input, mode, None, to);
+    match &d {
+        Err(e) => {
+            acc.violation(Violation { sig: format!("detection failed: {}", ev::truncate(&crate::c02_mask(e), 70)), case: case_json(input, mode, to, class), observed: format!("detect = {}; translate(None) = {}", show(&d), auto.verdict.show()), expected: "a format or 'no format'; a candidate that runs out of input or meets a syntax error is simply skipped".into() });
+            (None, false)
+        }
+        Ok(None) => {
+            if auto.verdict != Verdict::Err(UNABLE.into()) || !auto.out.is_empty() {
+                acc.violation(Violation { sig: "no format detected but the message is not the documented one".into(), case: case_json(input, mode, to, class), observed: format!("{} [{}]", auto.verdict.show(), preview(&auto.out, 80)), expected: format!("Err({UNABLE}) and no output") });
+            }
+            (None, false)
+        }
+        Ok(Some(f)) => {
+            let mut explicit = run_mode(input, mode, Some(*f), to);
+            acc.count("explicit_vs_detected_compared");
+            // On success the bytes must be identical. On failure the error text must be
+            // identical and the partial outputs prefix-comparable: how much was written
+            // before a failure depends on read-ahead, which even two explicit runs
+            // under different read schedules do not share (C02 states the same rule).
+            let agree = |a: &crate::run::Outcome, e: &crate::run::Outcome| a.verdict == e.verdict && if a.verdict.is_ok() { a.out == e.out } else { crate::run::prefix_comparable(&a.out, &e.out) };
+            let mut outputs_agree = agree(&auto, &explicit);
+            // With two defects in one failing input, WHICH error is met first also depends
+            // on read-ahead, and detection changes the read pattern the translator sees
+            // (the captured prefix is replayed in one piece). So for reader input the
+            // detected run may match the explicit reader run under another schedule.
+            if !outputs_agree && auto.verdict.is_err() {
+                if let Mode::Reader(_) = mode {
+                    for alt in [Sched::All, Sched::One, Sched::Fixed(4096)] {
+                        let e2 = run_mode(input, &Mode::Reader(alt), Some(*f), to);
+                        if agree(&auto, &e2) {
+                            acc.count("matched_explicit_run_under_other_schedule");
+                            explicit = e2;
+                            outputs_agree = true;
+                            break;
+                        }
+                    }
+                }
+            }
+            if !outputs_agree {
+                // Known finding: when detection has read a reader to its end, the
+                // translation continues on the slice path. Where a format's slice and
+                // reader paths word a failure differently (YAML error positions relative
+                // to the stream vs the current document), the detected reader run carries
+                // the explicit SLICE run's text.
+                if matches!(mode, Mode::Reader(_)) && auto.verdict.is_err() && explicit.verdict.is_err() && known::listed("C09", "C09-buffered-reader-behaves-as-slice") {
+                    let as_slice = run_mode(input, &Mode::Slice, Some(*f), to);
+                    if as_slice.verdict == auto.verdict && crate::run::prefix_comparable(&as_slice.out, &auto.out) {
+                        acc.known("C09-buffered-reader-behaves-as-slice", || format!("input [{}] as {}: detected '{}' [{}] vs explicit reader '{}' [{}]", preview(input, 50), f.name(), auto.verdict.text(), preview(&auto.out, 20), explicit.verdict.text(), preview(&explicit.out, 20)));
+                        return (Some(*f), false);
+                    }
+                }
+                acc.violation(Violation {
+                    sig: format!("detected {} but translate(None) != translate(Some({})): {}", f.name(), f.name(), if auto.verdict.class() != explicit.verdict.class() { "verdict".to_string() } else if auto.out != explicit.out { "output".to_string() } else { format!("error text [{}] vs [{}]", ev::truncate(&crate::c02_mask(auto.verdict.text()), 40), ev::truncate(&crate::c02_mask(explicit.verdict.text()), 40)) }),
+                    case: case_json(input, mode, to, class),
+                    observed: format!("detected run: {} [{}]; explicit run: {} [{}]", auto.verdict.show(), preview(&auto.out, 100), explicit.verdict.show(), preview(&explicit.out, 100)),
+                    expected: "identical verdict, output bytes and error text".into(),
+                });
+            }
+            (Some(*f), auto.verdict.is_ok())
+        }
+    }
+}
+
+/// Inputs aimed at the detection trials (part c).
+pub fn emphasised(seed: u64, idx: usize) -> (Vec<u8>, &'static str) {
+    let mut rng = Rng::derive(seed, 0xc09c, idx as u64);
+    match idx % 6 {
+        0 => {
+            // a MessagePack collection marker followed by anything from nothing to a complete value
+            let mut feats = crate::spell::Feats::default();
+            let mut cl = crate::gen::Classes::default();
+            let d = crate::gen::gen_collection(&mut rng, &GenOpts { max_depth: 3, max_width: 4, ..GenOpts::common() }, 0, &mut cl, idx % 12 == 0);
+            let b = crate::spell::spell(Fmt::Msgpack, &d, &mut rng, &mut feats, false);
+            let cut = rng.range(1.min(b.len()), b.len());
+            (b[..cut].to_vec(), "msgpack_truncated_collection")
+        }
+        1 => {
+            let markers = [0x80u8, 0x81, 0x8f, 0x90, 0x91, 0x9f, 0xdc, 0xdd, 0xde, 0xdf];
+            let mut b = vec![*rng.pick(&markers)];
+            let n = rng.below(6);
+            b.extend(rng.bytes(n));
+            (b, "msgpack_marker_then_random")
+        }
+        2 => {
+            // valid text starting with U+0700..U+07FF (first byte 0xdc..0xdf)
+            let c = char::from_u32(0x700 + rng.below(0x100) as u32).unwrap();
+            let forms = [format!("{c}: 1\n"), format!("{c}x: [1, 2]\n"), format!("- {c}\n"), format!("{c}\n"), format!("\"{c}\" = 1\n"), format!("{c} = 1\n"), format!("{c}")];
+            (rng.pick(&forms).clone().into_bytes(), "text_starting_u0700_u07ff")
+        }
+        3 => {
+            let multi: [&[u8]; 14] = [b"[1]", b"{}", b"[]", b"1 = 2\n", b"\"a\" = 1\n", b"[a]\n", b"a: b\n", b"k = \"a: b\"\n", b"{\"a\": 1}", b"[a, b]\n", b"a = 1\n", b"# c\na = 1\n", b"1\n", b"\"s\"\n"];
+            (rng.pick(&multi).to_vec(), "accepted_by_several_formats")
+        }
+        4 => {
+            // first character from U+0080..U+00FF region and other two-byte leads
+            let c = char::from_u32(0x80 + rng.below(0x780) as u32).unwrap();
+            (format!("{c}a: [1]\n").into_bytes(), "text_starting_two_byte_char")
+        }
+        _ => {
+            let seeds = corpus::seeds();
+            let s = &seeds[rng.below(seeds.len())];
+            let cut = rng.range(0, s.bytes.len());
+            (s.bytes[..cut].to_vec(), "truncated_seed")
+        }
+    }
+}
+
+// ---------------------------------------------------------------------------
+// (d) handle programs
+// ---------------------------------------------------------------------------
+
+#[derive(Clone, Copy, Debug, PartialEq)]
+pub enum Tok {
+    Borrow,
+    Read(usize),
+    Prefix(usize),
+}
+
+fn tok_alphabet(len: usize) -> Vec<Tok> {
+    let mut v = vec![Tok::Borrow];
+    for n in 0..=len + 1 {
+        v.push(Tok::Read(n));
+        v.push(Tok::Prefix(n));
+    }
+    v
+}
+
+fn prog_text(p: &[Tok]) -> String {
+    p.iter()
+        .map(|t| match t {
+            Tok::Borrow => "B".to_string(),
+            Tok::Read(n) => format!("R{n}"),
+            Tok::Prefix(n) => format!("P{n}"),
+        })
+        .collect::<Vec<_>>()
+        .join(" ")
+}
+
+fn parse_prog(s: &str) -> Option<Vec<Tok>> {
+    let mut v = vec![];
+    for t in s.split_whitespace() {
+        v.push(match t.as_bytes()[0] {
+            b'B' => Tok::Borrow,
+            b'R' => Tok::Read(t[1..].parse().ok()?),
+            b'P' => Tok::Prefix(t[1..].parse().ok()?),
+            _ => return None,
+        });
+    }
+    Some(v)
+}
+
+/// Runs one program (which starts with an implicit Borrow) against the handle
+/// and the reference model. Returns Err(description) on the first discrepancy.
+pub fn run_program(data: &[u8], cuts: &[usize], prog: &[Tok], final_cow: bool, from_slice: bool) -> Result<(), String> {
+    let res = guarded_any(|| -> Result<(), String> {
+        let mut h = if from_slice { Handle::from_slice(data) } else { Handle::from_reader(SchedReader::new(data, Sched::Cuts(cuts.to_vec()))) };
+        // split into borrows
+        let mut borrows: Vec<Vec<Op>> = vec![vec![]];
+        for t in prog {
+            match t {
+                Tok::Borrow => borrows.push(vec![]),
+                Tok::Read(n) => borrows.last_mut().unwrap().push(Op::Read(*n)),
+                Tok::Prefix(n) => borrows.last_mut().unwrap().push(Op::Prefix(*n)),
+            }
+        }
+        for (bi, ops) in borrows.iter().enumerate() {
+            let b = h.borrow(ops);
+            let mut pos = 0usize; // the read position restarts at every borrow
+            if let Some(view) = &b.slice_view {
+                if view != data {
+                    return Err(format!("borrow {bi}: slice view {:?} is not the whole input {:?}", view, data));
+                }
+            }
+            let is_slice = b.slice_view.is_some();
+            let mut obs = b.obs.iter();
+            for op in ops {
+                match op {
+                    Op::Read(n) => {
+                        if is_slice {
+                            continue;
+                        }
+                        match obs.next() {
+                            Some(Obs::Read(Ok(got))) => {
+                                let m = got.len();
+                                if m > *n {
+                                    return Err(format!("borrow {bi}: read({n}) returned {m} bytes"));
+                                }
+                                if pos + m > data.len() || got[..] != data[pos..pos + m] {
+                                    return Err(format!("borrow {bi}: read({n}) at position {pos} returned {:?}, expected a prefix of {:?}", got, &data[pos.min(data.len())..]));
+                                }
+                                if m == 0 && *n > 0 && pos < data.len() {
+                                    return Err(format!("borrow {bi}: read({n}) at position {pos} returned 0 bytes before the end of the input"));
+                                }
+                                pos += m;
+                            }
+                            other => return Err(format!("borrow {bi}: read({n}) observed {other:?}")),
+                        }
+                    }
+                    Op::Prefix(n) => match obs.next() {
+                        Some(Obs::Prefix(Ok(got))) => {
+                            let q = got.len();
+                            if q > data.len() || got[..] != data[..q] {
+                                return Err(format!("borrow {bi}: prefix({n}) returned {:?}, not a prefix of the input", got));
+                            }
+                            if q < (*n).min(data.len()) {
+                                return Err(format!("borrow {bi}: prefix({n}) returned only {q} bytes of {}", data.len()));
+                            }
+                            if is_slice && q != data.len() {
+                                return Err(format!("borrow {bi}: prefix({n}) on a slice reference returned {q} bytes"));
+                            }
+                        }
+                        other => return Err(format!("borrow {bi}: prefix({n}) observed {other:?}")),
+                    },
+                }
+            }
+        }
+        // take ownership: the consumer must see the complete, unaltered input
+        let all = if final_cow {
+            h.into_cow().map_err(|e| format!("into_cow failed: {e}"))?
+        } else {
+            match h.into_input() {
+                Owned::Slice(v) => v,
+                Owned::Reader(mut r) => {
+                    let mut v = vec![];
+                    r.read_to_end(&mut v).map_err(|e| format!("owned reader failed: {e}"))?;
+                    v
+                }
+            }
+        };
+        if all != data {
+            return Err(format!("after the program the owner sees {:?}, expected {:?}", all, data));
+        }
+        Ok(())
+    });
+    match res {
+        Ok(r) => r,
+        Err(p) => Err(format!("panic: {p}")),
+    }
+}
+
+fn compositions(len: usize, idx: usize) -> Vec<usize> {
+    // bit i of idx set => cut after byte i+1
+    (0..len.saturating_sub(1)).filter(|i| idx >> i & 1 == 1).map(|i| i + 1).collect()
+}
+
+fn handle_programs(ctx: &Ctx, acc_total: &mut Acc) {
+    let max_toks = if ctx.thorough() { 4 } else { 3 };
+    let max_len = 6usize;
+    // enumerate (len, program) pairs; inside: all chunkings x 2 finals
+    let mut work: Vec<(usize, usize, usize)> = vec![]; // (len, ntoks, index)
+    for len in 0..=max_len {
+        let a = tok_alphabet(len).len();
+        for nt in 0..=max_toks {
+            let count = a.pow(nt as u32);
+            // chunk the index space so that work items are of comparable size
+            let per = 2000;
+            let mut s = 0;
+            while s < count {
+                work.push((len, nt, s));
+                s += per;
+            }
+        }
+    }
+    let acc = crate::par::run(work.len(), 1, |w, acc| {
+        let (len, nt, start) = work[w];
+        let alpha = tok_alphabet(len);
+        let a = alpha.len();
+        let count = a.pow(nt as u32);
+        let data: Vec<u8> = (0..len).map(|i| b'a' + i as u8).collect();
+        for pi in start..(start + 2000).min(count) {
+            let mut prog = Vec::with_capacity(nt);
+            let mut x = pi;
+            for _ in 0..nt {
+                prog.push(alpha[x % a]);
+                x /= a;
+            }
+            let n_comp = 1usize << len.saturating_sub(1);
+            for ci in 0..n_comp {
+                let cuts = compositions(len, ci);
+                for final_cow in [false, true] {
+                    acc.evals += 1;
+                    acc.count("handle_programs_run");
+                    if let Err(e) = run_program(&data, &cuts, &prog, final_cow, false) {
+                        acc.violation(Violation { sig: format!("handle program: {}", ev::truncate(&crate::c02_mask(&e), 60)), case: json!({"part": "handle", "data_hex": hex(&data), "cuts": cuts, "program": prog_text(&prog), "final": if final_cow { "cow" } else { "input" }}), observed: e, expected: "reads return the next bytes, prefixes return a prefix at least as long as asked, the owner sees the whole input".into() });
+                    }
+                }
+            }
+            // the same program on a slice handle (one run, no chunking)
+            acc.evals += 1;
+            if let Err(e) = run_program(&data, &[], &prog, pi % 2 == 0, true) {
+                acc.violation(Violation { sig: format!("handle program (slice): {}", ev::truncate(&crate::c02_mask(&e), 60)), case: json!({"part": "handle", "data_hex": hex(&data), "cuts": [], "program": prog_text(&prog), "final": if pi % 2 == 0 { "cow" } else { "input" }, "slice": true}), observed: e, expected: "slice handles expose the whole input".into() });
+            }
+            if nt >= 2 && len >= 2 {
+                acc.distinct(&(len, pi));
+            }
+        }
+    });
+    acc_total.merge(acc);
+}
+
+pub fn run(ctx: &Ctx) -> i32 {
+    let n_mixed = ctx.size(12000, 400000);
+    let n_emph = ctx.size(12000, 400000);
+    let seed = ctx.seed;
+    let opts = GenOpts::common();
+    let mut acc = crate::par::run(n_mixed + n_emph, 16, |i, acc| {
+        let (bytes, class) = if i < n_mixed {
+            let it = corpus::mixed_item(seed, i, &opts);
+            (it.bytes, it.class)
+        } else {
+            emphasised(seed, i - n_mixed)
+        };
+        if bytes.len() >= 2 << 20 {
+            return;
+        }
+        acc.count(&format!("class_{class}"));
+        acc.distinct(&bytes);
+        acc.sample_every(2003, || json!({"class": class, "input_preview": preview(&bytes, 100)}));
+        let mut rng = Rng::derive(seed, 0xc09, i as u64);
+        let to = ALL[i % 4];
+        let scheds = [Sched::One, Sched::All, Sched::Fixed(*rng.pick(&[2usize, 3, 5, 13, 4096])), Sched::Random(rng.next(), 8)];
+        let (ds, ok_s) = transparency(&bytes, &Mode::Slice, to, class, acc);
+        let mut readers: Vec<(String, Option<Fmt>, bool)> = vec![];
+        for s in &scheds {
+            let m = Mode::Reader(s.clone());
+            let (d, ok) = transparency(&bytes, &m, to, class, acc);
+            readers.push((m.describe(), d, ok));
+        }
+        // (b) an input that translates successfully under detection (in any supply
+        // mode) is detected as the same format from a slice and from every reader
+        if ok_s || readers.iter().any(|r| r.2) {
+            acc.count("successful_inputs_checked_for_agreement");
+            for (how, d, _) in &readers {
+                if ds != *d {
+                    acc.violation(Violation { sig: format!("slice detects {} but reader detects {}", ds.map(|f| f.name()).unwrap_or("none"), d.map(|f| f.name()).unwrap_or("none")), case: case_json(&bytes, &Mode::parse(how).unwrap_or(Mode::Slice), to, class), observed: format!("input translates successfully under detection; slice detected as {:?}, {} as {:?}", ds.map(|f| f.name()), how, d.map(|f| f.name())), expected: "the same format from a slice and from a reader".into() });
+                    break;
+                }
+            }
+        }
+        acc.count("slice_reader_agreement_checked");
+    });
+    // two inputs just under 2 MiB (TOML detection from a reader is capped there)
+    {
+        let mut big = String::from("# big\n");
+        while big.len() < (2 << 20) - 64 {
+            big.push_str("k = \"aaaaaaaaaaaaaaaaaaaaaaaaaaaaaaaaaaaaaaaaaaaaaaaaaaaaaaaaaaaa\"\n[t");
+            big.push_str(&big.len().to_string());
+            big.push_str("]\n");
+        }
+        big.truncate(big.rfind('[').unwrap());
+        let b = big.into_bytes();
+        acc.count("class_just_under_2mib");
+        transparency(&b, &Mode::Slice, Fmt::Json, "just_under_2mib", &mut acc);
+        transparency(&b, &Mode::Reader(Sched::Fixed(65536)), Fmt::Json, "just_under_2mib", &mut acc);
+    }
+    handle_programs(ctx, &mut acc);
+    let rule = format!("(a,b) {} mixed corpus inputs + {} inputs aimed at the detection trials (MessagePack collection markers followed by every kind of truncation, text starting with U+0700-U+07FF and other two-byte characters, inputs several formats accept, truncated seeds, two inputs just under 2 MiB), each as a slice and under 4 read schedules, rotating target; (d) EVERY program of up to {} tokens over {{new borrow, read(n), prefix(n) : n in 0..=len+1}} x every data size 0..=6 x EVERY chunking of the source x both ways of taking ownership, plus the same programs on slice handles; distinct non-trivial = distinct inputs plus distinct programs of >= 2 tokens on >= 2 bytes", n_mixed, n_emph, if ctx.thorough() { 4 } else { 3 });
+    let mut extra = serde_json::Map::new();
+    extra.insert("handle_programs_exhaustive_up_to_tokens".into(), json!(if ctx.thorough() { 4 } else { 3 }));
+    ev::finish(
+        Finish { ctx, level: "exploration", rule, assumptions: vec!["the handle model is non-deterministic about how many bytes a read returns (1..=n) and how long a prefix is (>= min(n, len))".into(), "the harness reader injects no I/O errors in this check (C12 does)".into()], extra, exhaustive: false, min_distinct: 5000, must_reach: vec![("handle_programs_run".into(), 100000), ("explicit_vs_detected_compared".into(), 10000), ("detected_none".into(), 100), ("INPUT_READER_CHAINED_PREFIX".into(), 1000), ("INPUT_SLICE_FROM_READER_EOF".into(), 1000)] },
+        acc,
+    )
+}
+
+pub fn replay(v: &Value) -> i32 {
+    let c = &v["case"];
+    if c["part"].as_str() == Some("handle") {
+        let (Some(data), Some(prog)) = (c["data_hex"].as_str().and_then(unhex), c["program"].as_str().and_then(parse_prog)) else {
+            println!("bad replay case");
+            return 2;
+        };
+        let cuts: Vec<usize> = c["cuts"].as_array().map(|a| a.iter().filter_map(|x| x.as_u64().map(|x| x as usize)).collect()).unwrap_or_default();
+        let r = run_program(&data, &cuts, &prog, c["final"].as_str() == Some("cow"), c["slice"].as_bool().unwrap_or(false));
+        println!("data {:?} cuts {:?} program [{}] -> {:?}", data, cuts, prog_text(&prog), r);
+        return if r.is_err() { println!("VIOLATION property=C09 replay=<this file> (reproduced)"); 1 } else { println!("not reproduced"); 0 };
+    }
+    let (Some(input), Some(mode), Some(to)) = (c["input_hex"].as_str().and_then(unhex), c["mode"].as_str().and_then(Mode::parse), c["to"].as_str().and_then(Fmt::parse)) else {
+        println!("bad replay case");
+        return 2;
+    };
+    let mut acc = Acc::default();
+    let (ds, ok_s) = transparency(&input, &Mode::Slice, to, "replay", &mut acc);
+    let (dm, ok_m) = transparency(&input, &mode, to, "replay", &mut acc);
+    println!("input [{}] detect(slice)={} detect({})={}; detected translation succeeds: slice {}, reader {}", preview(&input, 300), show(&detect(&input, &Mode::Slice)), mode.describe(), show(&detect(&input, &mode)), ok_s, ok_m);
+    if acc.vio_count > 0 || ((ok_s || ok_m) && ds != dm) {
+        println!("VIOLATION property=C09 replay=<this file> (reproduced): {}", acc.violations.first().map(|v| v.observed.clone()).unwrap_or_else(|| "slice/reader detection disagree".into()));
+        1
+    } else {
+        println!("not reproduced (or a listed known finding)");
+        0
+    }
 }
